@@ -10,6 +10,7 @@ import (
 	"go/parser"
 	"go/token"
 	"go/types"
+	"regexp"
 	"strconv"
 	"strings"
 
@@ -1159,6 +1160,8 @@ func (c *specCtx) methodOrPkgCall(f *ast.SelectorExpr, args []ast.Expr) specVal 
 	return c.inlinePure(fn, vals)
 }
 
+var resultDefRe = regexp.MustCompile(`^result\s*==\s*(.+)$`)
+
 // inlinePure evaluates a Go function symbolically on a scratch copy of the state and returns
 // its (first) result; state changes are discarded and its safety obligations are not recorded.
 func (c *specCtx) inlinePure(fn *ssa.Function, args []string) specVal {
@@ -1166,6 +1169,29 @@ func (c *specCtx) inlinePure(fn *ssa.Function, args []string) specVal {
 	if res, ok := vc.modelCall(c.fr, c.st.clone(), fn, args, nil, token.NoPos); ok {
 		if len(res) > 0 {
 			return specVal{term: res[0], typ: fn.Signature.Results().At(0).Type()}
+		}
+	}
+	// a function under contract whose postcondition defines its result (ensures result == E) is used
+	// through that definition, as at a call site in code (its body is verified against it separately)
+	if cc := vc.eng.contracts.lookupFn(fn); cc != nil && fn != vc.root {
+		for _, e := range cc.Ensures {
+			m := resultDefRe.FindStringSubmatch(e)
+			if m == nil || strings.Contains(m[1], "==>") || strings.Contains(m[1], "old(") || strings.Contains(m[1], "calls(") {
+				continue
+			}
+			cf := vc.newFrame(fn, c.fr.depth+1)
+			for i, p := range fn.Params {
+				if i < len(args) {
+					cf.env[p] = args[i]
+				}
+			}
+			vc.inSpec++
+			t, typ, err := vc.specTerm(cf, c.st, m[1], nil)
+			vc.inSpec--
+			if err == nil {
+				_ = typ
+				return specVal{term: t, typ: fn.Signature.Results().At(0).Type()}
+			}
 		}
 	}
 	if len(fn.Blocks) == 0 {
@@ -1477,4 +1503,3 @@ func structFieldNames(t types.Type) []string {
 	}
 	return out
 }
-
